@@ -751,23 +751,34 @@ func verifC05_stale_reader() {
 	}
 	m1 := vBytes("m1", 2)
 	m2 := vBytes("m2", 3)
-	t := vNewTransport(vEncodeFrame(mk(vFrame{fin: true, opcode: 2, payload: m1})))
+	compressed := vParam("deflate", 0) != 0
+	first := vFrame{fin: true, opcode: 2, payload: m1}
+	take := 2
+	if compressed {
+		// a compressed message: the decompressor has taken in the whole frame as soon as the first byte is out, so the
+		// application may be anywhere in the message when the frame is "consumed"
+		first = vFrame{fin: true, opcode: 2, rsv1: true, payload: vStored(m1, []int{2}, false)}
+		take = 1 + vChoose("take", 2)
+	}
+	t := vNewTransport(vEncodeFrame(mk(first)))
 	t.endMode = vEndBlock
 	if vParam("peerStalls", 0) == 1 {
 		t.writeBlock = true // the peer does not read: the CloseRead goroutine's 1008 Close frame blocks
 	}
-	c := vNewConn(t, client, nil, 32, 64)
+	c := vNewConn(t, client, vCopts(vParam("deflate", 0)), 32, 64)
 	_, r, err := c.Reader(vBG)
 	vAssert(err == nil, "C05.stale-reader.setup")
-	p := make([]byte, 2)
+	p := make([]byte, take)
 	n, err := io.ReadFull(r, p)
-	vAssert(err == nil && n == 2 && vEqBytes(p, m1), "C05.stale-reader.first-message")
+	vAssert(err == nil && n == take && vEqBytes(p, m1[:take]), "C05.stale-reader.first-message")
 	how := vChoose("next", 2)
 	if how == 0 {
 		vClassify("next-message-begun-by", "Reader")
 		t.vFeed(vEncodeFrame(mk(vFrame{fin: true, opcode: 2, payload: m2})))
 		_, _, err = c.Reader(vBG)
-		vAssert(err == nil, "C05.stale-reader.second-reader")
+		if take == 2 {
+			vAssert(err == nil, "C05.stale-reader.second-reader")
+		}
 	} else {
 		vClassify("next-message-begun-by", "CloseRead")
 		c.CloseRead(vBG)
@@ -778,7 +789,16 @@ func verifC05_stale_reader() {
 	q := make([]byte, 8)
 	n, err = r.Read(q)
 	vReach("C05.stale-reader.read-again")
-	vAssert(n == 0 && err != nil, "C05.stale-reader.finished-message-yields-no-more-bytes")
+	if take == 2 {
+		vAssert(n == 0 && err != nil, "C05.stale-reader.finished-message-yields-no-more-bytes")
+	} else {
+		// the application had not got the whole message yet: whatever it is handed now is the next byte of that message,
+		// and a clean end is reported only once every byte has been handed out (C04)
+		vAssert(vIsPrefix(q[:n], m1[take:]), "C05.stale-reader.bytes-are-the-messages-own")
+		if err == io.EOF {
+			vAssert(take+n == 2, "C04.clean-end-only-after-every-byte-was-delivered")
+		}
+	}
 	c.CloseNow()
 	vObserve("c05stalereader", n, err == io.EOF)
 }
